@@ -27,6 +27,8 @@ Inductive ctx :=
 Inductive san :=
   | SNone | SEsc (* utils.remove_string_escapes *) | SRepr (* repr *) | SReprEsc (* repr after remove_string_escapes *)
   | SSnake (* PythonIdentifier / snake_case *) | SPascal (* ClassName / pascal_case *) | SKebab | SUpperSnake (* enum member keys *)
+  | SSanitize (* PythonIdentifier(skip_snake_case=True): the raw-name fallback for names that collide after snake-casing *)
+  | SRejects (* text with characters outside [A-Za-z0-9_-] never reaches the output: the piece is rejected with a diagnostic *)
   | SUnknown.
 
 Record site := { s_slot : string; s_file : string; s_ctx : ctx; s_san : san }.
@@ -40,7 +42,7 @@ Definition ctx_eqb (a b : ctx) : bool :=
 Definition san_eqb (a b : san) : bool :=
   match a, b with
   | SNone, SNone | SEsc, SEsc | SRepr, SRepr | SReprEsc, SReprEsc | SSnake, SSnake | SPascal, SPascal | SKebab, SKebab
-  | SUpperSnake, SUpperSnake | SUnknown, SUnknown => true
+  | SUpperSnake, SUpperSnake | SSanitize, SSanitize | SRejects, SRejects | SUnknown, SUnknown => true
   | _, _ => false
   end.
 
@@ -52,7 +54,8 @@ Definition field_prefix : str := [102;105;101;108;100;95].   (* config.field_pre
 
 Definition image (sa : san) (p : str) : str :=
   match sa with
-  | SNone | SUnknown => p
+  | SNone | SUnknown | SRejects => p
+  | SSanitize => python_identifier p field_prefix true
   | SEsc => escape_dq p
   | SRepr => py_repr p
   | SReprEsc => py_repr (escape_dq p)
@@ -66,6 +69,7 @@ Definition image (sa : san) (p : str) : str :=
 Definition site_value (sa : san) (p : str) : str :=
   match sa with
   | SReprEsc => escape_dq p
+  | SSanitize => python_identifier p field_prefix true
   | _ => p
   end.
 
@@ -115,6 +119,12 @@ Fixpoint toml_clean (s : str) : bool :=
 (* characters an identifier-class sanitiser can emit: outside ASCII anything, inside ASCII only word characters and '-' *)
 Definition inert_char (c : N) : bool := (128 <=? c) || is_word c || (c =? 45).
 
+(* the alphabet a validated slot accepts (openapi.py _PATH_PARAM_REGEX: letters, digits, underscore, dash) *)
+Definition pathparam_char (c : N) : bool :=
+  ((48 <=? c) && (c <=? 57)) || ((65 <=? c) && (c <=? 90)) || ((97 <=? c) && (c <=? 122)) || (c =? 95) || (c =? 45).
+(* delimiters that the raw-name fallback keeps *)
+Definition raw_delim (c : N) : bool := (c =? 32) || (c =? 45) || (c =? 46).
+
 (* ---- the payload domain on which a site is safe ---- *)
 Definition slot_guard (s : site) (p : str) : bool :=
   let sa := s_san s in
@@ -124,8 +134,13 @@ Definition slot_guard (s : site) (p : str) : bool :=
     | CIdent | CPath => g_xid p          (* C09: under g_xid the derived name is a valid identifier; outside: finding xid_gap *)
     | _ => true                          (* identifier images are inert in every string context *)
     end
+  else if match sa with SRejects => true | _ => false end then forallb pathparam_char p
   else
     match s_ctx s with
+    | CIdent | CPath => match sa with
+                        | SSanitize => is_identifier img && negb (mem_str img keywords)
+                        | _ => false
+                        end
     | CDQ => lit_guard DQ img (site_value sa p) && no_linesep img
     | CSQ => match sa with
              | SRepr | SReprEsc => whole_guard img (site_value sa p)
@@ -140,7 +155,7 @@ Definition slot_guard (s : site) (p : str) : bool :=
 
 (* run-time-meaningful text must come back character for character *)
 Definition slot_verbatim (s : site) (p : str) : bool :=
-  if ident_san (s_san s) then true else str_eqb (site_value (s_san s) p) p.
+  if ident_san (s_san s) then true else match s_san s with SSanitize | SRejects => true | _ => str_eqb (site_value (s_san s) p) p end.
 
 (* ---- which (context, sanitiser) combinations are acceptable ---- *)
 Inductive cls := KOk | KNarrow | KNever.
@@ -154,6 +169,9 @@ Definition site_class (c : ctx) (sa : san) : cls :=
       match c with CFstrDQ => KNever | _ => KOk end
     else
       match sa, c with
+      | SRejects, (CIdent | CPath | CDQ | CSQ | CDoc) => KOk
+      | SSanitize, (CIdent | CPath) => KNarrow
+      | SSanitize, (CDQ | CSQ | CDoc) => KOk
       | SEsc, (CDQ | CTomlBasic | CDoc) => KOk
       | SEsc, CFstrDQ => KNarrow
       | SNone, (CDQ | CTomlBasic | CDoc | CFstrDQ | CSQ) => KNarrow
@@ -185,7 +203,9 @@ Definition known_narrow : list (string * string * ctx * san * string) := [
   ("OpenAPI.paths.key", "api/*/*.py", CDQ, SNone, "path_injection");
   ("RequestBody.content.key", "api/*/*.py", CDQ, SNone, "content_type_injection");
   ("Schema.properties.key", "models/*.py", CFstrDQ, SEsc, "const_fstring");
-  ("Schema.const", "models/*.py", CFstrDQ, SReprEsc, "const_fstring")
+  ("Schema.const", "models/*.py", CFstrDQ, SReprEsc, "const_fstring");
+  ("Schema.properties.key", "models/*.py", CIdent, SSanitize, "raw_fallback");
+  ("Parameter.name", "api/*/*.py", CIdent, SSanitize, "raw_fallback")
 ]%string.
 
 Definition narrow_entry (s : site) : option string :=
@@ -208,7 +228,12 @@ Definition site_finding (s : site) (p : str) : string :=
   if negb (no_nul p) && negb (ident_san (s_san s)) then "nul_char"%string else
   if negb (no_linesep p) && negb (ident_san (s_san s)) && negb (match s_ctx s with CDoc => true | _ => false end) then "linesep_newline"%string else
   match site_class (s_ctx s) (s_san s) with
-  | KNarrow => match narrow_entry s with Some id => id | None => EmptyString end
+  | KNarrow =>
+    match s_san s with
+    | SSanitize => if existsb raw_delim p then (match narrow_entry s with Some id => id | None => EmptyString end)
+                   else if negb (g_xid p) then "xid_gap"%string else EmptyString
+    | _ => match narrow_entry s with Some id => id | None => EmptyString end
+    end
   | KOk =>
     if ident_san (s_san s) then "xid_gap"%string
     else match s_san s, s_ctx s with
